@@ -45,21 +45,3 @@ Proof.
   - transitivity (lambda * (alpha * dchi_dphi c alpha phi / lambda)); [field; exact H |].
     f_equal. symmetry. exact E2.
 Qed.
-
-(* directional derivative along a straight line through Cartesian angle space
-   (x, y) = alpha (cos phi, sin phi): d/dt chi(alpha + t da, phi + t dphi) — chain rule, used for
-   the Cartesian gradient: (dchi_dx, dchi_dy) . (dx, dy) / lambda with
-   da = cos phi dx + sin phi dy, alpha dphi = - sin phi dx + cos phi dy *)
-Lemma grad_cartesian_directional (c : env) (alpha phi lambda dx dy : R) :
-  lambda <> 0 -> alpha <> 0 ->
-  let da := cos phi * dx + sin phi * dy in
-  let dphi := (- sin phi * dx + cos phi * dy) / alpha in
-  is_derive (fun t => chi_polar c (alpha + t * da) (phi + t * dphi) lambda) 0
-            ((dchi_dx c alpha phi * dx + dchi_dy c alpha phi * dy) / lambda).
-Proof.
-  intros H Ha da dphi. unfold chi_polar, dchi_dx, dchi_dy, dchi_dk, dchi_dphi.
-  auto_derive.
-  - repeat split; exact I.
-  - replace (alpha + 0 * da) with alpha by ring. replace (phi + 0 * dphi) with phi by ring.
-    subst da dphi. trig_norm. field. split; assumption.
-Qed.
